@@ -76,6 +76,7 @@ fn chunk_replies(target: &Chunk, other: &Chunk) -> Vec<Reply> {
         Reply { name: "not found", reply: Err(GetRecordError::RecordNotFound), honest: false },
         Reply { name: "timeout", reply: Err(GetRecordError::QueryTimeout), honest: false },
         Reply { name: "not enough copies (of another chunk)", reply: Err(GetRecordError::NotEnoughCopies { record: other_under_key.clone(), expected: 3, got: 1 }), honest: false },
+        Reply { name: "not enough copies (two holders agreeing on another chunk)", reply: Err(GetRecordError::NotEnoughCopies { record: other_under_key.clone(), expected: 3, got: 2 }), honest: false },
         Reply { name: "does not match (another chunk)", reply: Err(GetRecordError::RecordDoesNotMatch(other_under_key.clone())), honest: false },
         Reply { name: "split between the chunk and another", reply: Err(split_of(&[right, other_under_key])), honest: false },
     ]
@@ -460,12 +461,15 @@ fn vault_reads(run: &Run) {
     }
     // not-enough-copies carrying an unauthenticated version
     for v in &vs {
-        run.case(format!("vault not-enough-copies {}", v.name).as_bytes(), true);
-        let res = read(Err(GetRecordError::NotEnoughCopies { record: v.record.clone(), expected: 3, got: 1 }));
-        execs += 1;
-        if let Some(Ok((b, _))) = &res {
-            if v.authentic.map(|(_, pt)| pt != &b[..]).unwrap_or(true) {
-                run.violation("vault-authentic", "vault-unauthenticated-not-enough-copies", format!("the vault read returned {:?} from a not-enough-copies answer carrying '{}'", String::from_utf8_lossy(b), v.name), json!({"delivery": "not-enough-copies", "version": v.name}));
+        // every shortfall: 1 or 2 holders agreeing where 3 were wanted, 1..4 where 5 were (agreement among a minority is not authentication)
+        for (expected, got) in [(3usize, 1usize), (3, 2), (5, 1), (5, 2), (5, 3), (5, 4)] {
+            run.case(format!("vault not-enough-copies {} {got}/{expected}", v.name).as_bytes(), true);
+            let res = read(Err(GetRecordError::NotEnoughCopies { record: v.record.clone(), expected, got }));
+            execs += 1;
+            if let Some(Ok((b, _))) = &res {
+                if v.authentic.map(|(_, pt)| pt != &b[..]).unwrap_or(true) {
+                    run.violation("vault-authentic", "vault-unauthenticated-not-enough-copies", format!("the vault read returned {:?} from a not-enough-copies answer ({got} of {expected} holders) carrying '{}'", String::from_utf8_lossy(b), v.name), json!({"delivery": "not-enough-copies", "version": v.name, "expected": expected, "got": got}));
+                }
             }
         }
     }
